@@ -2300,13 +2300,14 @@ void copy_api_from_app(
     scs_ptr->static_config.hme_level0_total_search_area_width = ((EbSvtAv1EncConfiguration*)config_struct)->hme_level0_total_search_area_width;
     scs_ptr->static_config.hme_level0_total_search_area_height = ((EbSvtAv1EncConfiguration*)config_struct)->hme_level0_total_search_area_height;
     scs_ptr->static_config.ext_block_flag = ((EbSvtAv1EncConfiguration*)config_struct)->ext_block_flag;
-    for (hme_region_index = 0; hme_region_index < scs_ptr->static_config.number_hme_search_region_in_width; ++hme_region_index) {
+    // the region counts are only validated by verify_settings afterwards: never copy more than the arrays hold
+    for (hme_region_index = 0; hme_region_index < MIN(scs_ptr->static_config.number_hme_search_region_in_width, (uint32_t)EB_HME_SEARCH_AREA_COLUMN_MAX_COUNT); ++hme_region_index) {
         scs_ptr->static_config.hme_level0_search_area_in_width_array[hme_region_index] = ((EbSvtAv1EncConfiguration*)config_struct)->hme_level0_search_area_in_width_array[hme_region_index];
         scs_ptr->static_config.hme_level1_search_area_in_width_array[hme_region_index] = ((EbSvtAv1EncConfiguration*)config_struct)->hme_level1_search_area_in_width_array[hme_region_index];
         scs_ptr->static_config.hme_level2_search_area_in_width_array[hme_region_index] = ((EbSvtAv1EncConfiguration*)config_struct)->hme_level2_search_area_in_width_array[hme_region_index];
     }
 
-    for (hme_region_index = 0; hme_region_index < scs_ptr->static_config.number_hme_search_region_in_height; ++hme_region_index) {
+    for (hme_region_index = 0; hme_region_index < MIN(scs_ptr->static_config.number_hme_search_region_in_height, (uint32_t)EB_HME_SEARCH_AREA_ROW_MAX_COUNT); ++hme_region_index) {
         scs_ptr->static_config.hme_level0_search_area_in_height_array[hme_region_index] = ((EbSvtAv1EncConfiguration*)config_struct)->hme_level0_search_area_in_height_array[hme_region_index];
         scs_ptr->static_config.hme_level1_search_area_in_height_array[hme_region_index] = ((EbSvtAv1EncConfiguration*)config_struct)->hme_level1_search_area_in_height_array[hme_region_index];
         scs_ptr->static_config.hme_level2_search_area_in_height_array[hme_region_index] = ((EbSvtAv1EncConfiguration*)config_struct)->hme_level2_search_area_in_height_array[hme_region_index];
@@ -2441,7 +2442,9 @@ void copy_api_from_app(
     scs_ptr->static_config.enable_manual_pred_struct    = config_struct->enable_manual_pred_struct;
     if(scs_ptr->static_config.enable_manual_pred_struct){
         scs_ptr->static_config.manual_pred_struct_entry_num = config_struct->manual_pred_struct_entry_num;
-        EB_MEMCPY(&scs_ptr->static_config.pred_struct[0], &config_struct->pred_struct[0],config_struct->manual_pred_struct_entry_num*sizeof(PredictionStructureConfigEntry));
+        // the entry count is only validated by verify_settings afterwards: never copy more than the array holds
+        EB_MEMCPY(&scs_ptr->static_config.pred_struct[0], &config_struct->pred_struct[0],
+                  CLIP3(0, 1 << (MAX_HIERARCHICAL_LEVEL - 1), config_struct->manual_pred_struct_entry_num) * sizeof(PredictionStructureConfigEntry));
         switch (scs_ptr->static_config.manual_pred_struct_entry_num) {
             case 1:
                 scs_ptr->static_config.hierarchical_levels =  0;
@@ -2646,6 +2649,9 @@ static EbErrorType verify_settings(
             SVT_LOG("Error Instance %u: Invalid hme_level0_total_search_area_width. hme_level0_total_search_area_width must be [1 - 480]\n", channel_number + 1);
             return_error = EB_ErrorBadParameter;
         }
+        // the sums below walk the arrays by the region counts: only with counts that fit the arrays
+        if (config->number_hme_search_region_in_width <= (uint32_t)EB_HME_SEARCH_AREA_COLUMN_MAX_COUNT &&
+            config->number_hme_search_region_in_height <= (uint32_t)EB_HME_SEARCH_AREA_ROW_MAX_COUNT) {
         if (verify_hme_dimension(channel_number + 1, config->hme_level0_total_search_area_height, config->hme_level0_search_area_in_height_array, config->number_hme_search_region_in_height))
             return_error = EB_ErrorBadParameter;
         if (verify_hme_dimension(channel_number + 1, config->hme_level0_total_search_area_width, config->hme_level0_search_area_in_width_array, config->number_hme_search_region_in_width))
@@ -2658,6 +2664,7 @@ static EbErrorType verify_settings(
             return_error = EB_ErrorBadParameter;
         if (verify_hme_dimension_l1_l2(channel_number + 1, config->hme_level2_search_area_in_height_array, config->number_hme_search_region_in_width))
             return_error = EB_ErrorBadParameter;
+        }
     }
 
     if (config->profile > 2) {
